@@ -21,7 +21,7 @@ import numpy as np
 
 from ..coqgen import B, C, L, N, NONE, Q, Some
 from ..fin import fm, T, D, err_class, magnitude
-from .c11 import (DAY, GAPS, SHAPES, Qf, Z, _val, consumer_grid, end_of_link, ghost_values, make_grid, set_memory,
+from .c11 import (DAY, GAPS, SHAPES, Qf, Z, _val, consumer_grid, end_of_link, freeze_once, ghost_values, make_grid, set_memory,
                   to_source_cells)
 from .c11 import coq_obs as _c11_coq_obs
 
@@ -343,6 +343,7 @@ def _run_link(case, ghost):
 
 
 def run_impl(case):
+    freeze_once()
     if case.get("mem") is not None:
         gc.collect()
         _run_link(case, ghost=True)     # an earlier coupling in the same process / spill directory
